@@ -1,3 +1,8 @@
+(* UPDATE: termination is now PROVED in Properties/C19t.v (C19_iter_terminates, C19_is_empty_re_terminates,
+   C19_get_string_terminates, C19_compile_terminates, C19_try_compile_terminates): for every term owned by an
+   API-reachable manager the exploration returns, with no divergence and no panic (after repair D11).  The
+   completion hypotheses of the theorems below ("the run returns Some") are therefore always satisfiable; the
+   remarks further down that call termination a gap describe the state before C19t.v existed. *)
 (* C02 -- compile / try_compile yield a total DFA accepting exactly the regex language.
 
    "For every regular expression e, the automaton returned by compile (or by try_compile when it
